@@ -124,10 +124,14 @@ func (g *GcsEmu) Handler(w http.ResponseWriter, r *http.Request) {
 	object := p.Object
 	bucket := p.Bucket
 
-	if err := r.ParseForm(); err != nil {
+	// Parameters travel in the query string only. (ParseForm would also consume the body of a
+	// request whose content type is application/x-www-form-urlencoded - an upload's content.)
+	form, err := url.ParseQuery(r.URL.RawQuery)
+	if err != nil {
 		g.gapiError(w, http.StatusBadRequest, fmt.Sprintf("failed to parse form: %s", err))
 		return
 	}
+	r.Form = form
 
 	conds, err := parseConds(r.Form)
 	if err != nil {
